@@ -486,6 +486,23 @@ func (k *K) genesisFieldRule(id string) {
 			if fed == "" || callee == nil {
 				continue
 			}
+			// every exported record is restored: the setter runs for each element of the list, under
+			// no condition other than the bounds of the loops over the genesis lists
+			cond := ""
+			for _, f := range imp.FactsAt(b) {
+				isLen := func(t *Term) bool {
+					s := t.String()
+					return strings.HasPrefix(s, "builtin.len("+P(2).String()+".") && strings.Count(s, "(") == 1
+				}
+				if (f.Op == "<" || f.Op == "<=") && (isLen(f.L) || isLen(f.R)) {
+					continue
+				}
+				// only a condition on the record being restored makes the import selective
+				if strings.Contains(f.Atom, P(2).String()+"."+fed+"[") {
+					cond = f.Atom
+				}
+			}
+			k.r.Check(cond == "", id+"/"+fed+".unconditional", "GUARD-DOM", fnShort(imp), imp.InstrPos(c), "every record of "+fed+" is restored", "records of GenesisState."+fed+" are restored only when '"+clip(cond)+"' holds: part of the exported state is dropped on import")
 			// the record's components go to the setter parameters of the same role: the key written
 			// on import is the key the record was exported from, not a permutation of it
 			agree, classified := true, 0
